@@ -78,6 +78,9 @@ def signature(rec, info):
         if ev == "wr" and rec.get("werr"):
             return "wr:werr:" + rec["werr"][:80]
         return "%s:%s:diverge:%s" % (ev, rec.get("judge"), r["kind"])
+    if ev in ("cut", "any") and (str(info.get("tr", "ok")).split(":")[0] not in ("ok", "error", "n/a") or str(info.get("trfile", "ok")).split(":")[0] not in ("ok", "error", "n/a")):
+        bad = info.get("tr") if str(info.get("tr", "ok")).split(":")[0] not in ("ok", "error", "n/a") else "file:" + str(info.get("trfile"))
+        return "%s:tracksreader:%s" % (ev, bad[:100])
     if ev == "cut":
         f = (info.get("first") or [{}])[0]
         return "cut:%s:%s" % (f.get("kind"), (f.get("msg") or "")[:100] if f.get("kind") in ("panic", "timeout") else ("alloc" if f.get("alloc", 0) > 8192 + f.get("k", 0) else "notprefix"))
